@@ -40,6 +40,21 @@ struct AssertFailed {
 };
 extern "C" void xassert(const char *msg, const char *, int) { throw AssertFailed{msg}; }
 
+// UBSan is built in recover mode for this harness and every report is counted and shown in the
+// result line (" | UB=<n>"). libubsan reports each source location only once per process, so the
+// handlers that matter here are replaced by counting ones (the executable's definitions win over
+// the shared library's); any other kind of report still reaches __ubsan_on_report().
+static unsigned long UbReports = 0;
+extern "C" {
+void __ubsan_on_report(void) { ++UbReports; }
+void __ubsan_handle_shift_out_of_bounds(void *, void *, void *) { ++UbReports; }
+void __ubsan_handle_add_overflow(void *, void *, void *) { ++UbReports; }
+void __ubsan_handle_sub_overflow(void *, void *, void *) { ++UbReports; }
+void __ubsan_handle_mul_overflow(void *, void *, void *) { ++UbReports; }
+void __ubsan_handle_out_of_bounds(void *, void *) { ++UbReports; }
+void __ubsan_handle_pointer_overflow(void *, void *, void *) { ++UbReports; }
+}
+
 typedef Ipc::Mem::PageStack PageStack;
 typedef Ipc::Mem::PageId PageId;
 
@@ -120,98 +135,115 @@ static void client(Case &c, int t) {
     }
 }
 
+// numbers with runs of consecutive values compressed: 2,3,4,9 -> 2-4,9
+template <class It>
+static std::string showNumbers(It b, It e) {
+    std::ostringstream o;
+    bool first = true;
+    while (b != e) {
+        const unsigned long lo = *b;
+        unsigned long hi = lo;
+        ++b;
+        while (b != e && *b == hi + 1) {
+            hi = *b;
+            ++b;
+        }
+        o << (first ? "" : ",") << lo;
+        if (hi != lo)
+            o << '-' << hi;
+        first = false;
+    }
+    return o.str();
+}
+
+static std::string runCase(const std::vector<std::string> &a) {
+    std::ostringstream o;
+    const unsigned long capacity = std::stoul(a[1]);
+    const bool full = a[2] == "F";
+    const int n = std::stoi(a[3]);
+    if (n < 1 || n > 8 || a.size() != static_cast<size_t>(n) + 5 || capacity > 100000 ||
+            (a[2] != "F" && a[2] != "E"))
+        return "ERR bad-args";
+    static verif_sched::Scheduler sched;
+    sched.maxSteps = 100000;
+    Case c;
+    c.capacity = capacity;
+    UbReports = 0;
+    PageStack::Config config;
+    config.poolId = PoolId;
+    config.pageSize = 32;
+    config.capacity = capacity;
+    config.createFull = full;
+    // like squid: the stack lives in zero-filled (shared) memory and is constructed in place
+    const size_t bytes = PageStack::StackSize(capacity) + 64;
+    void *mem = calloc(1, bytes);
+    try {
+        c.stack = new (mem) PageStack(config);
+    } catch (const AssertFailed &) {
+        return "CTOR#";
+    }
+    for (int i = 0; i < n; ++i)
+        c.scripts.push_back(a[4 + i] == "-" ? std::string() : a[4 + i]);
+    c.held.assign(n, std::deque<uint32_t>());
+    c.owner.assign(capacity + 1, -1);
+    c.crashed.assign(n, false);
+    if (!full)
+        for (unsigned long i = 0; i < capacity; ++i) {
+            c.held[i % n].push_back(i + 1);
+            c.owner[i + 1] = i % n;
+        }
+    std::vector<int> schedule;
+    if (a[4 + n] != "-")
+        for (char ch : a[4 + n])
+            schedule.push_back(ch - '0');
+    const bool finished = sched.run(n, [&c](int t) { client(c, t); }, schedule);
+    o << (c.log.empty() ? "-" : c.log);
+    if (!finished)
+        o << " LIVELOCK";
+    PageStack &s = *c.stack;
+    o << " | sz=" << s.size_.v;
+    o << " | nodes=";
+    const auto nodeCount = s.ids_.measurements.nodeCount();
+    for (uint32_t i = 0; i < nodeCount; ++i)
+        o << (i ? "," : "") << std::hex << s.ids_.nodes_[i].v << std::dec;
+    o << " | held=";
+    for (int i = 0; i < n; ++i)
+        o << (i ? ";" : "") << showNumbers(c.held[i].begin(), c.held[i].end());
+    // drain, single-threaded (no scheduler: operations execute directly)
+    o << " | drain=";
+    std::vector<uint32_t> drained;
+    bool drainCrashed = false;
+    try {
+        for (unsigned long k = 0; k <= capacity + 2; ++k) {
+            PageId page;
+            if (!s.pop(page))
+                break;
+            drained.push_back(page.number);
+        }
+    } catch (const AssertFailed &) {
+        drainCrashed = true;
+    }
+    o << showNumbers(drained.begin(), drained.end()) << (drainCrashed ? "#" : "");
+    o << " | steps=" << sched.steps;
+    if (UbReports)
+        o << " | UB=" << UbReports; // UBSan reports during this case
+    free(mem);
+    return o.str();
+}
+
 int main() {
     std::string line;
-    verif_sched::Scheduler sched;
-    sched.maxSteps = 100000;
     while (std::getline(std::cin, line)) {
         auto a = splitws(line);
         if (a.empty()) { std::cout << "\n"; continue; }
-        std::ostringstream o;
+        std::string out;
         try {
-            if (a[0] == "ps.run" && a.size() >= 5) {
-                const unsigned long capacity = std::stoul(a[1]);
-                const bool full = a[2] == "F";
-                const int n = std::stoi(a[3]);
-                if (n < 1 || n > 8 || a.size() != static_cast<size_t>(n) + 5 || capacity > 100000 ||
-                        (a[2] != "F" && a[2] != "E")) {
-                    o << "ERR bad-args";
-                } else {
-                    Case c;
-                    c.capacity = capacity;
-                    PageStack::Config config;
-                    config.poolId = PoolId;
-                    config.pageSize = 32;
-                    config.capacity = capacity;
-                    config.createFull = full;
-                    // like squid: the stack lives in zero-filled (shared) memory and is constructed in place
-                    const size_t bytes = PageStack::StackSize(capacity) + 64;
-                    void *mem = calloc(1, bytes);
-                    bool built = true;
-                    try {
-                        c.stack = new (mem) PageStack(config);
-                    } catch (const AssertFailed &) {
-                        built = false;
-                    }
-                    if (!built) {
-                        o << "CTOR#";
-                    } else {
-                        for (int i = 0; i < n; ++i)
-                            c.scripts.push_back(a[4 + i] == "-" ? std::string() : a[4 + i]);
-                        c.held.assign(n, std::deque<uint32_t>());
-                        c.owner.assign(capacity + 1, -1);
-                        c.crashed.assign(n, false);
-                        if (!full)
-                            for (unsigned long i = 0; i < capacity; ++i) {
-                                c.held[i % n].push_back(i + 1);
-                                c.owner[i + 1] = i % n;
-                            }
-                        std::vector<int> schedule;
-                        if (a[4 + n] != "-")
-                            for (char ch : a[4 + n])
-                                schedule.push_back(ch - '0');
-                        const bool finished = sched.run(n, [&c](int t) { client(c, t); }, schedule);
-                        o << (c.log.empty() ? "-" : c.log);
-                        if (!finished)
-                            o << " LIVELOCK";
-                        PageStack &s = *c.stack;
-                        o << " | sz=" << s.size_.v;
-                        o << " | nodes=";
-                        const auto nodeCount = s.ids_.measurements.nodeCount();
-                        for (uint32_t i = 0; i < nodeCount; ++i)
-                            o << (i ? "," : "") << std::hex << s.ids_.nodes_[i].v << std::dec;
-                        o << " | held=";
-                        for (int i = 0; i < n; ++i) {
-                            if (i)
-                                o << ';';
-                            bool first = true;
-                            for (const auto num : c.held[i]) {
-                                o << (first ? "" : ",") << num;
-                                first = false;
-                            }
-                        }
-                        // drain, single-threaded (no scheduler: operations execute directly)
-                        o << " | drain=";
-                        try {
-                            bool first = true;
-                            for (unsigned long k = 0; k <= capacity + 2; ++k) {
-                                PageId page;
-                                if (!s.pop(page))
-                                    break;
-                                o << (first ? "" : ",") << page.number;
-                                first = false;
-                            }
-                        } catch (const AssertFailed &) {
-                            o << '#';
-                        }
-                        o << " | steps=" << sched.steps;
-                    }
-                    free(mem);
-                }
-            } else
-                o << "ERR unknown-entry " << a[0];
-        } catch (const std::exception &e) { o.str(""); o << "EXC " << e.what(); }
-        std::cout << o.str() << "\n" << std::flush;
+            if (a[0] == "ps.run" && a.size() >= 5)
+                out = runCase(a);
+            else
+                out = "ERR unknown-entry " + a[0];
+        } catch (const std::exception &e) { out = std::string("EXC ") + e.what(); }
+        std::cout << out << "\n" << std::flush;
     }
     return 0;
 }
